@@ -74,3 +74,26 @@ func refDMOrder() []refDMRow {
 	}
 	return out
 }
+
+// exported view of the reference table for harnesses in other packages
+type VerifDMRow struct {
+	Rows, Cols, RegRows, RegCols, HRegions, VRegions, Data, Ecc, Blocks int
+}
+
+func VerifRefDM(i int) VerifDMRow {
+	r := refDM[i]
+	return VerifDMRow{r.rows, r.cols, r.regRows, r.regCols, r.hRegions, r.vRegions, r.data, r.ecc, r.blocks}
+}
+
+func VerifRefDMSelfCheck() bool { return refDMSelfCheck() }
+
+// VerifSymbolOfSize returns the library's symbol for reference row i (lookup by exact size).
+func VerifSymbolOfSize(i int) *SymbolInfo {
+	r := refDM[i]
+	for _, s := range symbols {
+		if s.GetSymbolWidth() == r.cols && s.GetSymbolHeight() == r.rows {
+			return s
+		}
+	}
+	return nil
+}
